@@ -23,7 +23,7 @@ CHECKS = {
             'DESIGN.md section 4, C10'),
     'C20': ('exploration',
             'runtime monitor on the real Name::is_superset_of / union / == / Hash against a real Context: complete pair matrix over a ~360-type universe, all triples via the matrix, union laws, repetition with fresh hash seeds, end-to-end `def x: U := e` cross-check',
-            'Exhaustive small scope: the order axioms (reflexive, transitive, Any top, nullable rules, class ancestry, union laws, insertion-order independence) are evaluated on the real public API for every pair and every triple of the universe; the matrices are recomputed several times with fresh Contexts and hash seeds; 600+ (T, U) pairs are cross-checked through the whole pipeline.',
+            'Exhaustive small scope: the order axioms (reflexive, transitive, Any top, nullable rules, class ancestry, unrelated generic instantiations, union laws, insertion-order independence) are evaluated on the real public API for every pair and every triple of the universe; the matrices are recomputed several times with fresh Contexts and hash seeds; 600+ (T, U) pairs are cross-checked through the whole pipeline.',
             'The universe is finite and built through public constructors; function types are judged for reflexivity only, as the property states.',
             'DESIGN.md section 4, C20'),
     'C03': ('exploration',
